@@ -55,6 +55,10 @@ type P struct {
 	Wire       *string `json:"wire,omitempty"`
 	Decoder    int     `json:"decoder,omitempty"` // 1 or 5, for Wire
 	Tok        *TokJ   `json:"token,omitempty"`
+	// Override (with Wire): after decoding, the caller assigns new values to fields of the decoded
+	// struct (nil pointer = field left as decoded); what Verify judges is the struct as presented
+	Override *TokJ `json:"fields_assigned_after_decoding,omitempty"`
+	OverType bool  `json:"type_assigned_after_decoding,omitempty"`
 }
 
 func hx(b []byte) *string {
@@ -162,6 +166,23 @@ func eval(p P) (outcome string, reached bool, v *mc.Viol) {
 			return "decode-reject(ref reject)", false, nil
 		}
 		tok = t
+		if p.Override != nil {
+			if p.OverType {
+				tok.TokenType = p.Override.Type
+			}
+			if p.Override.Nonce != nil {
+				tok.Nonce = unhx(p.Override.Nonce)
+			}
+			if p.Override.Context != nil {
+				tok.Context = unhx(p.Override.Context)
+			}
+			if p.Override.KeyID != nil {
+				tok.KeyID = unhx(p.Override.KeyID)
+			}
+			if p.Override.Auth != nil {
+				tok.Authenticator = unhx(p.Override.Auth)
+			}
+		}
 	} else {
 		tok = tokens.Token{TokenType: p.Tok.Type, Nonce: unhx(p.Tok.Nonce), Context: unhx(p.Tok.Context), KeyID: unhx(p.Tok.KeyID), Authenticator: unhx(p.Tok.Auth)}
 	}
@@ -645,6 +666,9 @@ func main() {
 		for bit := 0; bit < 8*len(h.Wire); bit++ {
 			specs = append(specs, spec{h: hi, it: h.T, ik: h.K, kind: 0, arg: bit})
 		}
+		for arg := 0; arg < 6; arg++ {
+			specs = append(specs, spec{h: hi, it: h.T, ik: h.K, kind: 3, arg: arg})
+		}
 		for _, it := range types {
 			for _, ik := range keys {
 				specs = append(specs, spec{h: hi, it: it, ik: ik, kind: 1})
@@ -669,6 +693,33 @@ func main() {
 			p.Wire, p.Decoder = hx(h.Wire), s.it
 			p.Class = "wire:as-issued"
 			p.Label = fmt.Sprintf("%s wire bytes -> decoder and issuer t%d k%d", h.name(), s.it, s.ik)
+		case 3:
+			flipb := func(b []byte) *string {
+				o := append([]byte{}, b...)
+				o[len(o)/2] ^= 0x04
+				return hx(o)
+			}
+			p.Wire, p.Decoder = hx(h.Wire), s.it
+			ov := &TokJ{}
+			name := ""
+			switch s.arg {
+			case 0:
+				ov.Nonce, name = flipb(h.N), "nonce"
+			case 1:
+				ov.Context, name = flipb(h.C), "context"
+			case 2:
+				ov.KeyID, name = flipb(h.ID), "key-id"
+			case 3:
+				ov.Type, name = uint16(h.T)^0x0004, "type"
+				p.OverType = true
+			case 4:
+				ov.Auth, name = flipb(h.A), "authenticator"
+			case 5:
+				ov.Nonce, name = hx(append([]byte{}, h.N...)), "nonce (same bytes, new slice)"
+			}
+			p.Override = ov
+			p.Class = "decoded-then-field-assigned:" + name
+			p.Label = fmt.Sprintf("%s decoded from its wire bytes, then %s assigned -> issuer t%d k%d", h.name(), name, s.it, s.ik)
 		case 2:
 			v := vs[h.T][s.arg]
 			p.Tok = tokJ(v.build(h, otherOf(s.h), s.it, s.ik, r.Seed))
